@@ -418,10 +418,20 @@ class _State:
         self.sphinx_cfg_diff = None
         self.shared_conf: dict = {}
         self.shared_conf_snap: dict = {}
+        self.live_cfgs: dict = {}
+        self.live_cfg_snap: dict = {}
         self.seen_ops: list = []
 
     def cfg(self, cid):
-        return _resolve_cfg(self.plan["configs"][cid], self.root)
+        """The caller's configuration mapping ``cid``: ONE object per history, handed to every operation that uses
+        it (a caller that keeps a settings_overrides / conf dict around) - and never the plan's own data, which
+        must stay what was planned (a replay re-executes it)."""
+        if cid not in self.live_cfgs:
+            import copy
+
+            self.live_cfgs[cid] = _resolve_cfg(copy.deepcopy(self.plan["configs"][cid]), self.root)
+            self.live_cfg_snap[cid] = sut.plain(copy.deepcopy(self.live_cfgs[cid]))
+        return self.live_cfgs[cid]
 
     def get_settings(self, sid, extra=None):
         if sid not in self.settings:
@@ -474,6 +484,13 @@ class _State:
         if self.sphinx_cfg_diff:
             d, self.sphinx_cfg_diff = self.sphinx_cfg_diff, None
             return d
+        for cid, cfg in self.live_cfgs.items():
+            now = sut.plain(cfg)
+            snap = self.live_cfg_snap[cid]
+            if now != snap:
+                fields = _diff_fields(snap, now)
+                return {"object_kind": "reused-config-mapping", "object": cid, "fields": fields,
+                        "before": {f: snap.get(f) for f in fields}, "after": {f: now.get(f) for f in fields}}
         for key, conf in self.shared_conf.items():
             now = sut.plain(conf)
             snap = self.shared_conf_snap[key]
@@ -510,13 +527,13 @@ def _run_op(op, plan, root, i, state: _State, fresh: bool):  # noqa: C901
             # the reference builds a brand-new settings object the same way; the history reuses one
             if fresh:
                 so = plan["settings_objs"][op["reuse"]]
-                settings = make_settings(sut.docutils_overrides(_resolve_cfg(plan["configs"][so["cfg"]], root)),
+                settings = make_settings(sut.docutils_overrides(state.cfg(so["cfg"])),
                                          so["writer"])
             else:
                 settings = state.get_settings(op["reuse"])
             r = sut.docutils_parse(text, path, root, settings=settings, parser=parser, writer=op.get("writer"))
         else:
-            ov = sut.docutils_overrides(_resolve_cfg(plan["configs"][op["cfg"]], root))
+            ov = sut.docutils_overrides(state.cfg(op["cfg"]))
             r = sut.docutils_parse(text, path, root, overrides=ov, parser=parser, writer=op.get("writer"))
         state.last_doctree = r[3]
         return r[:3]
@@ -532,7 +549,7 @@ def _run_op(op, plan, root, i, state: _State, fresh: bool):  # noqa: C901
             finally:
                 settings.halt_level = old
         else:
-            ov = sut.docutils_overrides(_resolve_cfg(plan["configs"][op["cfg"]], root), {"halt_level": 4})
+            ov = sut.docutils_overrides(state.cfg(op["cfg"]), {"halt_level": 4})
             r = sut.docutils_parse(op["body"], path, root, overrides=ov, parser=parser)
         return ("aborted", r[0])
     if kind == "interrupted":
@@ -562,7 +579,7 @@ def _run_op(op, plan, root, i, state: _State, fresh: bool):  # noqa: C901
         mid = op["md"]
         if fresh or mid not in state.mds:
             try:
-                cfg = MdParserConfig(**_resolve_cfg(plan["configs"][op["cfg"]], root))
+                cfg = MdParserConfig(**state.cfg(op["cfg"]))
             except Exception as e:  # noqa: BLE001
                 return ("exc", {"type": type(e).__name__, "where": "MdParserConfig"}, "")
             md = create_md_parser(cfg, DocutilsRenderer)
@@ -588,7 +605,7 @@ def _run_op(op, plan, root, i, state: _State, fresh: bool):  # noqa: C901
         state.last_doctree = doc
         return ("ok", out, sut.canon_sets(sut.scrub(ws.getvalue(), root)))
     if kind == "sphinx":
-        cfg = {k: v for k, v in plan["configs"][op["cfg"]].items()
+        cfg = {k: v for k, v in state.cfg(op["cfg"]).items()
                if k not in ("suppress_warnings", "highlight_code_blocks", "inventories")}
         conf = {f"myst_{k}": v for k, v in cfg.items()}
         conf.update(op.get("extra_conf") or {})
